@@ -7,6 +7,7 @@ import (
 	"go/constant"
 	"go/token"
 	"hash/fnv"
+	"regexp"
 	"sort"
 	"strings"
 
@@ -622,9 +623,9 @@ func (in *Interp) mergeCells(a, b *Cell) *Cell {
 	}
 	before := in.FP(a.Content)
 	a.Content = in.Join(a.Content, b.Content)
-	if a.LenVal == nil {
-		a.LenVal = b.LenVal
-	} else if b.LenVal != nil && in.FP(a.LenVal) != in.FP(b.LenVal) {
+	if a.LenVal == nil || b.LenVal == nil {
+		a.LenVal = nil // an unknown length (appended to, or not made here) stays unknown when merged with a known one
+	} else if in.FP(a.LenVal) != in.FP(b.LenVal) {
 		a.LenVal = in.Join(a.LenVal, b.LenVal)
 	}
 	b.Alias = a
@@ -650,6 +651,19 @@ func (in *Interp) cellRead(c *Cell, sel string) *Val {
 	}
 	r := *v
 	r.fpOK = false
+	if strings.Contains(r.Sym, "iv@") {
+		ss := splitSel(sel)
+		last := ""
+		if len(ss) > 0 {
+			last = ss[len(ss)-1]
+		}
+		switch {
+		case strings.HasPrefix(last, "[iv"):
+			r.Sym = strings.ReplaceAll(r.Sym, "iv@", last[1:len(last)-1])
+		default:
+			r.Sym = ""
+		}
+	}
 	r.From = sortedUnion(r.From, []string{c.Tag + sel})
 	if c.TypeTag != "" {
 		r.From = sortedUnion(r.From, []string{c.TypeTag + strings.Join(dropSliceSels(splitSel(sel)), "")})
@@ -663,6 +677,20 @@ func (in *Interp) cellWrite(c *Cell, sel string, x *Val) {
 	}
 	c = c.find()
 	before := in.FP(c.Content)
+	// a table filled by its own index (t[k] = f(k)): the symbolic value is stored index-parametrically, so that a read
+	// at t[j] yields f(j)
+	if ss := splitSel(sel); len(ss) > 0 && x.Sym != "" {
+		last := ss[len(ss)-1]
+		if strings.HasPrefix(last, "[iv") {
+			iv := last[1 : len(last)-1]
+			if re := regexp.MustCompile(`\b` + iv + `\b`); re.MatchString(x.Sym) {
+				cp := *x
+				cp.fpOK = false
+				cp.Sym = re.ReplaceAllString(x.Sym, "iv@")
+				x = &cp
+			}
+		}
+	}
 	c.Content = in.writeAt(c.Content, dropSliceSels(splitSel(sel)), x)
 	if in.FP(c.Content) != before {
 		c.Ver++
